@@ -25,6 +25,10 @@ type c07E2ECase struct {
 	Copies      int    `json:"copies"`       // how often the server sends each response (1 = once)
 	Kind        string `json:"kind"`         // result error
 	SM          bool   `json:"sm"`
+	// AcrossReconnect (client, requests from the test goroutine): the server leaves the request unanswered and drops the
+	// connection; the application reconnects (same Client, same Router) while the request's context is still alive, and
+	// the answer arrives on the new connection
+	AcrossReconnect bool `json:"across_reconnect,omitempty"`
 }
 
 func genC07E2E(t *rapid.T) c07E2ECase {
@@ -37,6 +41,11 @@ func genC07E2E(t *rapid.T) c07E2ECase {
 	if c.Entity == "client" {
 		c.FromHandler = rapid.Bool().Draw(t, "fromHandler")
 		c.SM = rapid.Bool().Draw(t, "sm")
+		if !c.FromHandler && rapid.IntRange(0, 2).Draw(t, "acrossReconnect") == 0 {
+			c.AcrossReconnect = true
+			c.N = 1
+			c.SM = false
+		}
 	}
 	return c
 }
@@ -52,6 +61,7 @@ func runC07E2E(c c07E2ECase) vh.Result {
 		res.Label("duplicate-responses")
 	}
 	ready := make(chan *peer.Conn, 1)
+	reconnected := make(chan *peer.Conn, 1)
 	srv, err := peer.Listen(func(pc *peer.Conn) {
 		if c.Entity == "component" {
 			if ev := pc.ExpectOpen(10 * time.Second); ev.Kind != "open" {
@@ -70,6 +80,34 @@ func runC07E2E(c c07E2ECase) vh.Result {
 				ready <- nil
 				return
 			}
+		}
+		if c.AcrossReconnect && pc.Index == 0 {
+			ready <- pc
+			// the request arrives and stays unanswered; the connection goes away
+			for {
+				ev := pc.NextElem(10 * time.Second)
+				if ev.Kind != "elem" {
+					return
+				}
+				if ev.Name.Local == "iq" && ev.Attr["type"] == "get" {
+					break
+				}
+			}
+			pc.GracefulClose(time.Second)
+			return
+		}
+		if c.AcrossReconnect && pc.Index == 1 {
+			// the answer to the request made on the previous connection arrives here, unasked
+			resp := "<iq type='result' id='q-t0' from='localhost'><query xmlns='jabber:iq:version'><name>n</name></query></iq>"
+			if c.Kind == "error" {
+				resp = "<iq type='error' id='q-t0' from='localhost'><error type='cancel'><item-not-found xmlns='urn:ietf:params:xml:ns:xmpp-stanzas'/></error></iq>"
+			}
+			for i := 0; i < c.Copies; i++ {
+				pc.Send(resp)
+			}
+			reconnected <- pc
+			pc.Drain(10 * time.Second)
+			return
 		}
 		ready <- pc
 		// answer every IQ request the configured number of times
@@ -112,10 +150,23 @@ func runC07E2E(c c07E2ECase) vh.Result {
 	var outcomes []outcome
 	var ordinary []string // ids of IQ results / errors that reached the ordinary routes
 	done := make(chan struct{}, 8)
+	var lateCancels []context.CancelFunc
+	defer func() {
+		mu.Lock()
+		defer mu.Unlock()
+		for _, f := range lateCancels {
+			f()
+		}
+	}()
 	var sender xmpp.Sender
 	request := func(id string) {
 		ctx, cancel := context.WithTimeout(context.Background(), vh.Margin(3*time.Second))
-		defer cancel()
+		if c.AcrossReconnect {
+			// as in the library's own example (ctx, _ := context.WithTimeout(...)): the context simply runs out
+			defer func() { mu.Lock(); lateCancels = append(lateCancels, cancel); mu.Unlock() }()
+		} else {
+			defer cancel()
+		}
 		iq, _ := stanza.NewIQ(stanza.Attrs{Type: stanza.IQTypeGet, Id: id, To: "localhost"})
 		iq.Payload = &stanza.Version{}
 		o := outcome{id: id}
@@ -163,6 +214,8 @@ func runC07E2E(c c07E2ECase) vh.Result {
 		}
 	})
 	var disconnect func() error
+	var theClient *xmpp.Client
+	lost := make(chan struct{}, 1)
 	if c.Entity == "component" {
 		comp, err := xmpp.NewComponent(xmpp.ComponentOptions{
 			TransportConfiguration: xmpp.TransportConfiguration{Address: srv.Addr, Domain: "comp.localhost", ConnectTimeout: 1},
@@ -195,6 +248,16 @@ func runC07E2E(c c07E2ECase) vh.Result {
 			return res
 		}
 		sender, disconnect = cl, cl.Disconnect
+		theClient = cl
+		cl.SetHandler(func(e xmpp.Event) error {
+			if xmpp.VerifEventState(e) == xmpp.StateDisconnected {
+				select {
+				case lost <- struct{}{}:
+				default:
+				}
+			}
+			return nil
+		})
 	}
 	defer func() { go func() { _ = disconnect() }() }()
 	var pc *peer.Conn
@@ -209,6 +272,52 @@ func runC07E2E(c c07E2ECase) vh.Result {
 		return res
 	}
 	desc := fmt.Sprintf("%+v", c)
+	if c.AcrossReconnect {
+		res.Label("response-arrives-after-reconnection")
+		go request("q-t0")
+		select {
+		case <-lost:
+		case <-time.After(vh.Margin(5 * time.Second)):
+			res.Fail("harness-no-loss", "%s: the connection was dropped but no Disconnected event followed", desc)
+			return res
+		}
+		if err := theClient.Resume(); err != nil {
+			res.Fail("harness-resume", "%s: reconnecting failed: %v", desc, err)
+			return res
+		}
+		select {
+		case <-reconnected:
+		case <-time.After(10 * time.Second):
+			res.Fail("harness", "second connection not established")
+			return res
+		}
+		select {
+		case <-done:
+		case <-time.After(vh.Margin(8 * time.Second)):
+			res.Fail("t/request-never-finished", "%s: request q-t0 neither got its response nor timed out", desc)
+			return res
+		}
+		time.Sleep(vh.Margin(60 * time.Millisecond))
+		mu.Lock()
+		defer mu.Unlock()
+		// The request was still pending when its answer arrived on the new connection: it is delivered to the caller
+		// once (the pending entry lives as long as the request's context) or, if the library chose to end pending
+		// requests with the connection, to the ordinary routes - but never lost, never twice, and the process lives.
+		o := outcomes[0]
+		n := 0
+		for _, id := range ordinary {
+			if id == "q-t0" {
+				n++
+			}
+		}
+		switch {
+		case len(o.got) > 1:
+			res.Fail("response-delivered-twice", "%s: %d responses on the caller's channel", desc, len(o.got))
+		case len(o.got)+n != c.Copies:
+			res.Fail("t/late-response-lost", "%s: the server sent %d copies on the new connection; the caller got %d, the ordinary routes %d", desc, c.Copies, len(o.got), n)
+		}
+		return res
+	}
 	for i := 0; i < c.N; i++ {
 		id := fmt.Sprintf("q-t%d", i)
 		if c.FromHandler {
@@ -254,7 +363,7 @@ func runC07E2E(c c07E2ECase) vh.Result {
 
 var c07e2e = vh.Define(&vh.Def[c07E2ECase]{
 	Property: "C07", Name: "e2e",
-	Rule: "1-3 SendIQ requests on a real Client (SM on/off) or Component against the scripted peer, which answers each with a result or an error, once or 2-3 times; for a Client the request is issued, in half of the cases, by the handler of an inbound message, which waits for the answer before it returns (handlers run concurrently for a client); oracle: the caller's channel delivers exactly its own response once and is closed, within the request's 3 s context; the further copies reach the ordinary routes, none is lost; non-trivial = a request from inside a handler, duplicates, or several requests",
+	Rule: "1-3 SendIQ requests on a real Client (SM on/off) or Component against the scripted peer, which answers each with a result or an error, once or 2-3 times; for a Client the request is issued, in half of the cases, by the handler of an inbound message, which waits for the answer before it returns (handlers run concurrently for a client), or - a third of the other client cases - the request stays unanswered, the connection is dropped, the application reconnects and the answer arrives on the new connection (it goes to the caller or to the ordinary routes, every copy exactly once, and the process survives); oracle: the caller's channel delivers exactly its own response once and is closed, within the request's 3 s context; the further copies reach the ordinary routes, none is lost; non-trivial = a request from inside a handler, duplicates, or several requests",
 	Quick: 120, Thorough: 3000, Journal: true,
 	Gen: genC07E2E, Run: runC07E2E,
 })
